@@ -43,7 +43,7 @@ func c10Cases() []c10Case {
 				for _, ns := range []bool{false, true} {
 					for _, tol := range []bool{false, true} {
 						for _, na := range []string{"absent", "good", "malformed", "ghost", "neighbour"} {
-							for _, st := range []string{"none", "main-requests", "main-limits", "main-both", "side", "main-twice", "error-status"} {
+							for _, st := range []string{"none", "main-requests", "main-limits", "main-both", "side", "main-twice", "error-status", "empty-status"} {
 								for _, mode := range []bool{false, true} {
 									out = append(out, c10Case{Containers: nc, TplRes: tr, Affinity: af, NodeSel: ns, Toleration: tol, NodeAnnot: na, Setting: st, Affin: mode})
 									if af == "none" && !tol {
@@ -148,6 +148,9 @@ func c10Setting(c c10Case, cpu string) *v1.ExtendedDaemonsetSetting {
 	case "error-status":
 		s.Spec.Containers = []v1.ExtendedDaemonsetSettingContainerSpec{{Name: "main", Resources: corev1.ResourceRequirements{Requests: req}}}
 		s.Status.Status = v1.ExtendedDaemonsetSettingStatusError
+	case "empty-status": // created, not yet looked at by the setting controller: not valid (yet)
+		s.Spec.Containers = []v1.ExtendedDaemonsetSettingContainerSpec{{Name: "main", Resources: corev1.ResourceRequirements{Requests: req}}}
+		s.Status.Status = ""
 	}
 	return s
 }
